@@ -301,5 +301,32 @@ ALG_CLASSES = [
              "an Action obtained with Invoke(c).ToA() shares its value slice: Prefix/Suffix/Style applied to it write through, so the second invocation yields `xxa` and the stored action itself changes"),
 ]
 
-CLASSES = CLASSES + ALG_CLASSES
+def _ascii_only(s):
+    return "".join(c if ord(c) < 128 else "x" for c in s)
+
+
+def _split_neutral(i):
+    o = copy.deepcopy(i)
+    o["text"] = _ascii_only(o.get("text", ""))
+    return o
+
+
+def _split_redirect_neutral(i):
+    o = copy.deepcopy(i)
+    t = o.get("text", "")
+    for op in (">>", "2>", ">", "<"):
+        t = t.replace(op, " ")
+    o["text"] = t
+    return o
+
+
+SPLIT_CLASSES = [
+    Class("split_rune_byte_index", ("C17",), ("split",), lambda i: any(ord(c) > 127 for c in i.get("text", "")), _split_neutral,
+          "Split: the lexer's token index counts runes but the typed text is sliced by bytes: with non-ASCII text in front of the last word every candidate is built on a wrong prefix (`é a`: no usable candidate)"),
+    Class("splitp_redirect_adjoining_last_word", ("C17",), ("split",),
+          lambda i: i.get("pipelines") and any(op in i.get("text", "") for op in (">", "<")), _split_redirect_neutral,
+          "SplitP: when a redirection adjoins the word being completed the Context is built from the redirect-filtered tokens but the prefix from the unfiltered ones: the redirection is dropped from / duplicated in the candidate"),
+]
+
+CLASSES = CLASSES + ALG_CLASSES + SPLIT_CLASSES
 BY_ID = {c.id: c for c in CLASSES}
